@@ -501,6 +501,13 @@ impl ClusterHandler for NocHandler {
 
         let buf = response.writer().available_space();
 
+        // A failed store of the (purged) CASE resumption cache is retried before a new fabric
+        // - which might get the local index of a fabric that is gone - comes into being:
+        // no new fabric while the stored cache cannot be brought up to date.
+        #[cfg(feature = "case-resumption")]
+        ctx.exchange()
+            .with_state(|state| state.retry_resumption_store(ctx.kv()))?;
+
         let status = NodeOperationalCertStatusEnum::map(GenCommHandler::with_armed_failsafe(
             &ctx,
             |state, mut notify_mdns| {
